@@ -6,7 +6,11 @@ import c02
 
 CONFIGS = ['prod']
 EXPLANATION = (
-    "SEM (primary): the registry's add / remove / lookup summarised per (service, key) over 12 abstract pre-states; one request through the connection hand"
+    "SEM, black box (abstract interpretation of the MIR, no code runs): every sequence of up to three Server::add_service / remove_service calls (two services, one re-added "
+    "with another instance and fewer messages) is interpreted through the server's own API — ServiceRegistry::add_handler, the key and URI functions as symbolic terms, the "
+    "registry state as ServerState::default() gives it — and after every call the lookup the connection handler uses must find, for each (service, message) path, exactly the "
+    "instance last registered for it and nothing once its service was removed; independent of how the registry is represented. "
+    "SEM, state level: the registry's add / remove / lookup summarised per (service, key) over 12 abstract pre-states; one request through the connection hand"
     'ler interpreted against a registry that does / does not hold the handler. Structural fallback / remaining clauses: '
     'Decided clauses: G1 removing a service removes exactly that service\'s handler keys (retain closure returns false iff the key is in '
     'the removed service\'s key set, the set being what the service table held for the removed name; or a per-key remove loop); '
